@@ -178,6 +178,13 @@ def run_unit(unit, work, tier='quick'):
                 lc2[kk] = txt
             loops2[key] = lc2
         gen2 = splice(gen, loops2)
+        # ghost statements (lemmas: assertions over locals of the real code) anchored by a pattern of the generated
+        # text; the anchor must match exactly once, anything else is an extraction break (exit 2)
+        for pat, ghost in unit.get('inserts', []):
+            ms = list(re.finditer(pat, gen2))
+            if len(ms) != 1:
+                raise Undecided('ghost anchor %r matches %d times in the generated code' % (pat, len(ms)))
+            gen2 = gen2[:ms[0].start()] + ghost + '\n' + gen2[ms[0].start():]
         with open(os.path.join(d, 'gen.c'), 'w') as f:
             f.write(gen2)
         csrc = os.path.join(d, 'main.c')
